@@ -57,39 +57,84 @@ def child_env(extra=None):
     return env
 
 
+CRASH_SIGNALS = {4: "SIGILL", 6: "SIGABRT", 7: "SIGBUS", 8: "SIGFPE", 11: "SIGSEGV"}
+
+
 def run_shards(prop, mod, tier, seed, wdir, mode_name, mode_env, nshards,
                budget_scale=1.0, only=None):
-    procs = []
+    """Run the shards; a shard that the *library* takes down with a fatal
+    signal (segfault / abort inside a JIT kernel) is itself an observation: a
+    crash event for the case that was running is recorded, the shard's last
+    checkpoint is kept, and the shard is resumed after that case (at most 3
+    times).  Shards that die otherwise (killed, timeout) count as dead."""
     budget = mod.BUDGET[tier] * budget_scale
-    for i in range(nshards):
-        out = os.path.join(wdir, f"{mode_name}.{i}.json")
-        log = open(os.path.join(wdir, f"{mode_name}.{i}.log"), "w")
-        cmd = [PY, "-m", "qmon.shard", "--prop", prop, "--tier", tier,
-               "--seed", str(seed), "--shard", str(i), "--nshards", str(nshards),
-               "--out", out, "--budget", str(budget)]
-        if only:
-            cmd += ["--only", only]
-        p = subprocess.Popen(cmd, cwd=ROOT, env=child_env(mode_env),
-                             stdout=log, stderr=subprocess.STDOUT)
-        procs.append((p, out, log))
     hard = budget * 2.5 + 240
     t0 = time.time()
     results, dead = [], 0
-    for p, out, log in procs:
-        left = max(1.0, hard - (time.time() - t0))
-        try:
-            p.wait(timeout=left)
-        except subprocess.TimeoutExpired:
-            p.kill()
-            p.wait()
-        log.close()
-        if os.path.exists(out):
+    todo = [(i, None, 0) for i in range(nshards)]     # (shard, start, restarts)
+    while todo:
+        procs = []
+        for i, start, nres in todo:
+            out = os.path.join(wdir, f"{mode_name}.{i}.json" if not nres else f"{mode_name}.{i}.r{nres}.json")
+            for ext in ("", ".cur", ".part"):
+                if os.path.exists(out + ext):
+                    os.remove(out + ext)
+            log = open(os.path.join(wdir, f"{mode_name}.{i}.log"), "a" if nres else "w")
+            left_budget = max(5.0, budget - (time.time() - t0)) if nres else budget
+            cmd = [PY, "-m", "qmon.shard", "--prop", prop, "--tier", tier,
+                   "--seed", str(seed), "--shard", str(i), "--nshards", str(nshards),
+                   "--out", out, "--budget", str(left_budget)]
+            if only:
+                cmd += ["--only", only]
+            if start is not None:
+                cmd += ["--start", str(start)]
+            p = subprocess.Popen(cmd, cwd=ROOT, env=child_env(mode_env),
+                                 stdout=log, stderr=subprocess.STDOUT)
+            procs.append((p, out, log, i, nres))
+        todo = []
+        for p, out, log, i, nres in procs:
+            left = max(1.0, hard - (time.time() - t0))
             try:
-                results.append(json.load(open(out)))
+                p.wait(timeout=left)
+            except subprocess.TimeoutExpired:
+                p.kill()
+                p.wait()
+            log.close()
+            if os.path.exists(out):
+                try:
+                    results.append(json.load(open(out)))
+                    continue
+                except Exception:
+                    pass
+            sig = -p.returncode if p.returncode is not None and p.returncode < 0 else None
+            cur = None
+            if sig in CRASH_SIGNALS and os.path.exists(out + ".cur"):
+                try:
+                    cur = json.load(open(out + ".cur"))
+                except Exception:
+                    cur = None
+            if cur is not None:
+                part = None
+                if os.path.exists(out + ".part"):
+                    try:
+                        part = json.load(open(out + ".part"))
+                    except Exception:
+                        part = None
+                if part is None:
+                    part = {"property": prop, "counters": [], "violations": [], "samples": [],
+                            "sigs": [], "notes": {}, "errors": [], "case_descs": [], "shard": i}
+                mech = f"crash:{CRASH_SIGNALS[sig]}:{cur['workload']}"
+                part["violations"].append({
+                    "property": prop, "entry": "process", "clause": "no_fatal_signal",
+                    "mech": mech,
+                    "detail": {"signal": CRASH_SIGNALS[sig], "log": os.path.join(wdir, f"{mode_name}.{i}.log")},
+                    "case": cur})
+                part["counters"].append(["process", "no_fatal_signal", "violation", 1])
+                results.append(part)
+                if nres < 3:
+                    todo.append((i, cur["idx"] + nshards, nres + 1))
                 continue
-            except Exception:
-                pass
-        dead += 1
+            dead += 1
     return results, dead
 
 
